@@ -522,6 +522,35 @@ def history_cases(chk, rng, n):
             nnx.update(ens, jax.tree_util.tree_map(lambda a: a + jnp.asarray(rng.normal(0, 0.5, size=a.shape), dtype=a.dtype), nnx.state(ens, nnx.Param)))
 
 
+def offset_cases(chk, rng, n):
+    """aggregate on ensembles whose member means share a large offset while the predictive variance is tiny: the total variance is
+    still mean member variance + variance of the member means (no cancellation of large squares)"""
+    import jax.numpy as jnp
+    for k in range(n):
+        E, n_in, n_out = int(rng.integers(2, 5)), int(rng.integers(1, 3)), int(rng.integers(1, 3))
+        shared = bool(k % 2)
+        ens, _, spec = make_ensemble(rng, E, n_in, n_out, shared, [], "relu", lv_bias=-30.0)
+        head = ens.ensemble.output_layers[0]
+        kern, bias = np.asarray(head.kernel.value).copy(), np.asarray(head.bias.value).copy()
+        kern[..., :n_out] = 0.0
+        bias[..., :n_out] = float(rng.choice([1000.0, -3000.0])) + (0.0 if k % 3 else 0.001 * np.arange(E)[:, None])
+        head.kernel.value, head.bias.value = jnp.asarray(kern), jnp.asarray(bias)
+        X = dy(rng, (3, n_in))
+        case = {"n_ensemble": E, "n_features": n_in, "n_outputs": n_out, "shared_head": shared, "mean_offset": float(bias.reshape(-1)[0]), "X": tolist(X)}
+        chk.case(("offset", k, E, n_in, n_out))
+        chk.count("offset_cases")
+        ok, r = chk.impl_call("C17:call:batch-raises", case, lambda: ens(jnp.asarray(X)))
+        oka, agg = chk.impl_call("C17:aggregate:batch-raises", case, lambda: ens.aggregate(jnp.asarray(X)))
+        if not (ok and oka):
+            continue
+        means, lvs = np.asarray(r[0], dtype=np.float64), np.asarray(r[1], dtype=np.float64)
+        ev = np.exp(lvs).mean(axis=0) + means.var(axis=0)
+        av = np.asarray(agg[1], dtype=np.float64).reshape(ev.shape)
+        if not np.allclose(av, ev, rtol=5e-3, atol=1e-9):
+            chk.fail("C17:aggregate:batch-total-variance", "aggregate variance differs from mean member variance + variance of the member means when the means share a large offset",
+                     {"case": case, "observed_var": tolist(av), "expected_var": tolist(ev)})
+
+
 def nll_cases(chk, rng, n):
     import jax.numpy as jnp
     from rl_blox.blox.probabilistic_ensemble import gaussian_nll
@@ -798,6 +827,7 @@ def main(chk):
     training_isolation(chk, rng)
     nll_cases(chk, rng, 30 if q else 500)
     history_cases(chk, rng, 6 if q else 60)
+    offset_cases(chk, rng, 8 if q else 80)
     ensemble_loss_case(chk, rng)
     plan_cases(chk, rng, 24 if q else 400)
     pendulum_cases(chk, rng, 60 if q else 2000)
